@@ -361,3 +361,4 @@ func vBlobID(b []byte) uint64 { return vBlobToCell(b) & 0xffffffff }
 func vFileContent(b *bufferedFile) uint64 { return 0 }
 func vFSCorruptFile(path string) bool { return false }
 func vTimerFor(site string, mode int) {}
+func vLastTimerDuration() time.Duration { return 0 }
